@@ -89,6 +89,7 @@ class C01(Check):
             want = float('%.10E' % v) if v is not None else None
             if (want is None and gv > 0) or (want is not None and gv != want and not (want <= 0 and gv <= 0)):
                 n_bad += 1
+                ctx.__dict__.setdefault('_c01_badcells', []).append((table, Z, col, want))
                 if n_bad <= 3: bad.append('table %s[%d][%d] = %r, data file says %r (-> %r)' % (table, Z, col, gv, v, want))
         ctx.coverage['datafile_cells_checked'] = len(req)
         ctx.notes.append('data files vs compiled tables: %d cells, %d differ' % (len(req), n_bad))
@@ -119,6 +120,20 @@ class C01(Check):
             if eo.startswith('value'): nontriv.add(sl)
             if not core.expect_agrees(co, eo, rel=0.0, stats=stats):
                 viol.append(dict(key=cl, got=co, expected=eo, what='scalar lookup: library vs table cell / macro range'))
+        # ---- cells that differ from the data files (found by extra_steps): turn each into the accessor call that reads it,
+        #      so that the report carries a failing input of the real library, not only a table cell
+        ACC = {'EdgeEnergy_arr': ('EdgeEnergy', lambda c: c), 'FluorYield_arr': ('FluorYield', lambda c: c), 'JumpFactor_arr': ('JumpFactor', lambda c: c),
+               'AtomicLevelWidth_arr': ('AtomicLevelWidth', lambda c: c), 'LineEnergy_arr': ('LineEnergy', lambda c: -c - 1), 'RadRate_arr': ('RadRate', lambda c: -c - 1),
+               'CosKron_arr': ('CosKronTransProb', lambda c: c), 'AtomicWeight_arr': ('AtomicWeight', None), 'ElementDensity_arr': ('ElementDensity', None)}
+        cells = getattr(ctx, '_c01_badcells', [])[:400]
+        if cells:
+            q = ['%s %d%s E' % (ACC[t][0], Z, '' if ACC[t][1] is None else ' %d' % ACC[t][1](col)) for t, Z, col, w in cells]
+            for l, (t, Z, col, w), o in zip(q, cells, ctx.run_c(q)):
+                pa = core.parse_answer(o)
+                ok = pa['kind'] == 'ok' and ((w is not None and w > 0 and pa['slot'] == 'E' and pa['vals'][0] == w) or ((w is None or w <= 0) and pa['slot'].startswith('F')))
+                if not ok:
+                    viol.append(dict(key=l, got=o, expected=('value %r (the record of the data file, 11 digits)' % w) if w else 'fails (the data file has no positive record)',
+                                     what='the accessor returns something else than the data file records for this element and named quantity'))
         # ---- second data configuration: the Kissel table regenerated from data/kissel (tools/regen_kissel.py) -------
         # (only ElectronConfig reads a Kissel-derived table among the scalar accessors; all are re-run, same code objects)
         n2 = 0; kis = {}
